@@ -67,7 +67,7 @@ pub fn pristine_pass(reg: &[Entry], seeds: &[u64]) -> Pristine {
     m
 }
 
-pub fn run_instance(sched: &Value, ea: &Entry, eb: &Entry, ca: i64, cb: i64, seed: u64, out: &mut Vec<String>, pristine: &Pristine,
+pub fn run_instance(sched: &Value, ea: &Entry, eb: &Entry, ca: i64, cb: i64, seed: u64, out: &mut Vec<String>, pristine: &Pristine, long: usize,
                     roundtrip: &dyn Fn(&dyn Obj) -> Option<Result<Box<dyn Obj>, String>>) -> bool {
     let (Some(a1), Some(b1), Some(a3)) = ((ea.make)(), (eb.make)(), (ea.make)()) else { return false };
     let mut objs: Vec<Box<dyn Obj>> = vec![a1, b1, a3];
@@ -88,9 +88,12 @@ pub fn run_instance(sched: &Value, ea: &Entry, eb: &Entry, ca: i64, cb: i64, see
     }
     // history-free chains (fresh value, fresh thread) of CHAIN successive samples from the first RNG state for both classes: the
     // epilogue below samples the same chain on the objects after the whole history
+    // (`long` > 0: a long chain, for sibling pairs of the rejection samplers - the epilogue then INTERLEAVES the two objects call by
+    // call on one thread, so that state keyed on an intermediate quantity of the rejection loop - a candidate, a table index - that
+    // one object leaves behind is met by the other; a handful of calls almost never repeats such a key)
     const CHAIN: usize = 5;
     for (o, c) in [(1i64, ca), (2i64, cb)] {
-        if let Some(ch) = fresh_chain(c as usize - 1, false, &seed_rng(seed, 1), CHAIN) {
+        if let Some(ch) = fresh_chain(c as usize - 1, false, &seed_rng(seed, 1), CHAIN.max(long)) {
             for (pre_r, res, post_r) in ch {
                 let pre = sid.id(rng_key(&pre_r));
                 let (rs, outid) = match res { Ok(x) => ("Ok".to_string(), oid.id(x.bits)), Err(p) => (format!("Panic: {}", p), 0) };
@@ -189,6 +192,20 @@ pub fn run_instance(sched: &Value, ea: &Entry, eb: &Entry, ca: i64, cb: i64, see
     // epilogue: after the whole history, every object is sampled once more from the run's first RNG state on a scratch
     // handle (r = 0): "regardless of how many samples were drawn before from that or any other distribution object"
     // - the memo then compares these with the pristine references and with each other
+    if long > 0 {
+        let mut scr = [seed_rng(seed, 1), seed_rng(seed, 1)];
+        let mut alive = [true, true];
+        for _ in 0..long {
+            for o in 0..2usize {
+                if !alive[o] { continue; }
+                let n0 = out.len();
+                let mut sc = scr[o].clone();
+                sample_ev(&objs, o, &mut sc, 0, &mut sid, &mut oid, out);
+                scr[o] = sc;
+                if out[n0..].iter().any(|l| l.contains("Panic")) { alive[o] = false; }
+            }
+        }
+    }
     for o in 0..3usize {
         let mut scratch = seed_rng(seed, 1);
         for _ in 0..CHAIN {
@@ -269,7 +286,9 @@ pub fn replay_with(args: &[String], roundtrip: &dyn Fn(&dyn Obj) -> Option<Resul
             // two registry entries with identical parameters are one class, not two (the model's classes A and B are distinct)
             if reg[j].label() == ea.label() { let mut t = (j + 1) % reg.len(); while reg[t].variant == "beyond-E" || t == i || reg[t].label() == ea.label() { t = (t + 1) % reg.len(); } j = t; }
             buf.clear();
-            if run_instance(sc, ea, &reg[j], i as i64 + 1, j as i64 + 1, seed.wrapping_add(si as u64), &mut buf, &pristine, roundtrip) {
+            // long interleaved chains: sibling pairs (same family and float type) of the multi-word rejection samplers, first schedule only
+            let long = if si == 0 && reg[j].family == ea.family && reg[j].ft == ea.ft && matches!(ea.family, "Hypergeometric" | "Binomial" | "Poisson" | "Zipf" | "Zeta" | "Beta" | "Gamma") { 200 } else { 0 };
+            if run_instance(sc, ea, &reg[j], i as i64 + 1, j as i64 + 1, seed.wrapping_add(si as u64), &mut buf, &pristine, long, roundtrip) {
                 instances += 1; events += buf.len() as u64;
                 for l in &buf { writeln!(f, "{}", l).unwrap(); }
             } else { skipped += 1; }
